@@ -227,9 +227,9 @@ class Iter(AVal):
     kind: 'slice' (remaining Int, elem AVal, src), 'range' (start Int, end Int), 'opaque'
     Adaptors take/skip are folded into `remaining` at construction."""
     kind = "iter"
-    __slots__ = ("ikind", "remaining", "elem", "start", "end", "extra", "cells", "pos")
+    __slots__ = ("ikind", "remaining", "elem", "start", "end", "extra", "cells", "pos", "seen", "last")
 
-    def __init__(self, ikind, remaining=None, elem=None, start=None, end=None, extra=None, cells=None, pos=None):
+    def __init__(self, ikind, remaining=None, elem=None, start=None, end=None, extra=None, cells=None, pos=None, seen=None, last=None):
         self.ikind = ikind
         self.remaining = remaining
         self.elem = elem
@@ -238,10 +238,16 @@ class Iter(AVal):
         self.extra = extra
         self.cells = cells if cells else None      # known elements by absolute index (slice iterators)
         self.pos = pos if cells else None          # absolute index of the next element, when known
+        # loop-universal inference (slice iterators by shared reference over a whole container): `seen` over-approximates every item
+        # yielded so far, each as refined by the code that ran until control came back to next(); `last` is the cell of the item yielded
+        # last, whose refinement is still in progress.  seen is None: not tracked.
+        self.seen = seen
+        self.last = last
 
     def __eq__(self, o):
         return (isinstance(o, Iter) and self.ikind == o.ikind and self.remaining == o.remaining and self.elem == o.elem
-                and self.start == o.start and self.end == o.end and self.extra == o.extra and self.pos == o.pos and self.cells == o.cells)
+                and self.start == o.start and self.end == o.end and self.extra == o.extra and self.pos == o.pos and self.cells == o.cells
+                and self.seen == o.seen and self.last == o.last)
 
     def __hash__(self):
         return hash((self.ikind, self.remaining, self.start, self.end))
@@ -291,6 +297,53 @@ class FnItem(AVal):
 UNIT = Struct("()", ())
 
 
+def _join_seen(a, b, j):
+    """seen/last of the join of two iterators: a side that has yielded nothing yet contributes nothing; two different pending items
+    (two call sites drawing from one iterator) end the tracking"""
+    if a.seen is None or b.seen is None:
+        return None, None
+    if a.last is not None and b.last is not None and a.last != b.last:
+        return None, None
+    return j(a.seen, b.seen), (a.last if a.last is not None else b.last)
+
+
+def meet_val(a, b):
+    """an over-approximation of γ(a) ∩ γ(b) that is ⊑ a; BOT when the intersection is certainly empty"""
+    if b is None or isinstance(b, Top):
+        return a
+    if isinstance(a, Top):
+        return b
+    if a.is_bot() or b.is_bot():
+        return BOT
+    if isinstance(a, Int) and isinstance(b, Int) and a.bits == b.bits and a.signed == b.signed:
+        lo, hi = max(a.lo, b.lo), min(a.hi, b.hi)
+        if lo > hi:
+            return BOT
+        return Int(lo, hi, a.bits, a.signed, max(a.tz, b.tz)) if (lo, hi) != (a.lo, a.hi) else a
+    if isinstance(a, Enum) and isinstance(b, Enum) and a.path == b.path:
+        keep = {}
+        for i, pl in a.variants.items():
+            if i not in b.variants:
+                continue
+            pb = b.variants[i]
+            if len(pl) != len(pb):
+                keep[i] = pl
+                continue
+            m = tuple(meet_val(x, y) for x, y in zip(pl, pb))
+            if any(x.is_bot() for x in m):
+                continue
+            keep[i] = m
+        if not keep:
+            return BOT
+        return Enum(a.path, keep)
+    if isinstance(a, Struct) and isinstance(b, Struct) and a.path == b.path and len(a.fields) == len(b.fields):
+        m = [meet_val(x, y) for x, y in zip(a.fields, b.fields)]
+        if any(x.is_bot() for x in m):
+            return BOT
+        return Struct(a.path, m)
+    return a
+
+
 def join_int(a, b):
     if a.is_empty():
         return b
@@ -337,7 +390,15 @@ def join_val(a, b, depth=0):
         cells = {}
         for k in set(a.cells) & set(b.cells):
             cells[k] = join_val(a.cells[k], b.cells[k], depth + 1)
-        elem = join_val(a.elem, b.elem, depth + 1)
+        # the summary element of a certainly empty array describes nothing
+        ea_empty = isinstance(a.len, Int) and a.len.hi == 0 and not a.cells
+        eb_empty = isinstance(b.len, Int) and b.len.hi == 0 and not b.cells
+        if ea_empty and not eb_empty:
+            elem = b.elem
+        elif eb_empty and not ea_empty:
+            elem = a.elem
+        else:
+            elem = join_val(a.elem, b.elem, depth + 1)
         # cells only on one side degrade into the summary element
         for k in set(a.cells) ^ set(b.cells):
             elem = join_val(elem, a.cells.get(k, b.cells.get(k)), depth + 1)
@@ -350,8 +411,9 @@ def join_val(a, b, depth=0):
                 return None
             return join_val(x, y, depth + 1)
         keep = a.pos is not None and a.pos == b.pos and a.cells == b.cells
+        seen, last = _join_seen(a, b, lambda x, y: join_val(x, y, depth + 1))
         return Iter(a.ikind, j(a.remaining, b.remaining), j(a.elem, b.elem), j(a.start, b.start), j(a.end, b.end),
-                    a.extra if a.extra == b.extra else None, a.cells if keep else None, a.pos if keep else None)
+                    a.extra if a.extra == b.extra else None, a.cells if keep else None, a.pos if keep else None, seen, last)
     if isinstance(a, Closure) and isinstance(b, Closure) and a.def_path == b.def_path and len(a.captures) == len(b.captures):
         return Closure(a.def_path, [join_val(x, y, depth + 1) for x, y in zip(a.captures, b.captures)], a.env)
     if isinstance(a, FnItem) and isinstance(b, FnItem) and a == b:
@@ -403,8 +465,9 @@ def widen_val(old, new, thresholds):
                 return None
             return widen_val(x, y, thresholds)
         keep = old.pos is not None and old.pos == new.pos and old.cells == new.cells
+        seen, last = _join_seen(old, new, lambda x, y: widen_val(x, y, thresholds))
         return Iter(old.ikind, w(old.remaining, new.remaining), w(old.elem, new.elem), w(old.start, new.start), w(old.end, new.end),
-                    old.extra if old.extra == new.extra else None, old.cells if keep else None, old.pos if keep else None)
+                    old.extra if old.extra == new.extra else None, old.cells if keep else None, old.pos if keep else None, seen, last)
     return join_val(old, new)
 
 
@@ -458,6 +521,8 @@ def leq_val(a, b):
                 return False
             return leq_val(x, y)
         if b.pos is not None and (a.pos != b.pos or a.cells != b.cells):
+            return False
+        if b.seen is not None and (a.seen is None or not leq_val(a.seen, b.seen) or (a.last is not None and a.last != b.last)):
             return False
         return l(a.remaining, b.remaining) and l(a.elem, b.elem) and l(a.start, b.start) and l(a.end, b.end)
     if isinstance(a, Closure) and isinstance(b, Closure):
